@@ -14,6 +14,7 @@ TECH.update({
  "C05":"rapid model-based testing: server wire JSON vs an independent executable model of the documented mapping, both directions",
  "C13":"rapid generation of schemas in a compile matrix; oracle = go build + go vet on emitted packages, Node type-stripping import of emitted TypeScript; IR-level shrinking",
 })
+TECH["C02"]="rapid property-based testing of the emitted Go server with raw HTTP requests; oracle = independent reference request binder (URL + body -> expected message or 400)"
 TEXT={
  "C12":("Generated-input search: every rule x placement cell of the documented catalogue is injected into rapid-drawn valid schemas and judged at the process boundary of the real plugins; the converse is checked on every base schema. Exploration, not proof: cells are enumerated, surroundings sampled.","§5 C12"),
  "C14":("Differential property test over rapid-drawn schemas: byte identity of same-named files, plus behavioural equality of server-only and client-only builds on generated values. Exploration.","§5 C14"),
@@ -26,6 +27,7 @@ TEXT.update({
  "C05":("The generated server is driven over HTTP with model-encoded bodies; handler-visible requests and response bodies are compared tree-by-tree with the reference model M. Exploration over schemas x values; M is an independent implementation of the documented mapping.","§5 C05, Appendix A"),
  "C13":("Every emitted package (go-http only, go-client only, both; with and without mock) is built and vetted with the analyzers go test runs; every emitted .ts module is imported in Node 22. Exploration over a compile matrix of annotation x cardinality x naming.","§5 C13"),
 })
+TEXT["C02"]=("For every RPC with URL-bound fields rapid draws request lines (valid / invalid / grey URL values per kind, encodings, missing parameters) x bodies x content types; the handler-visible request or the 400 ValidationError is compared with a reference binder written from the documented contract. Exploration with value shrinking.","§5 C02")
 NOTE={
  "C12":"Trusted: schema generator + protodesc gate stand in for protoc; error text naming the offender is the 'names the offender' criterion.",
  "C14":"Trusted: protoc-gen-go, Go toolchain, protovalidate stand-in (not exercised by codecs).",
@@ -38,6 +40,7 @@ NOTE.update({
  "C05":"Trusted: reference model M; in-memory HTTP; undocumented cases are skipped and counted, never guessed.",
  "C13":"Trusted: Go toolchain; Node 22 type stripping detects syntax/load errors only (no tsc offline); stand-in protovalidate has the real API surface used by emitted code.",
 })
+NOTE["C02"]="Trusted: reference binder B judges only clearly valid / clearly invalid URL spellings; in-memory HTTP; TS server half is exercised by C08's Node runs, not here."
 claimed=sorted(TECH)
 checks=[]
 for p in claimed:
